@@ -161,12 +161,16 @@ namespace c08
 
     inline const char *ncls(size_t n, size_t len)
     {
-        return n == 0 ? "n0" : n == (size_t)-1 ? "n_max" : n < len ? "n_lt_len" : n == len ? "n_eq_len" : "n_gt_len";
+        return n == 0 ? "n0" : n == (size_t)-1 ? "n_max" : n > (size_t)-1 / 2 ? "n_huge" : n < len ? "n_lt_len" : n == len ? "n_eq_len" : "n_gt_len";
     }
     inline const char *ccls(int c)
     {
         return c == 0 ? "c_nul" : (c < -128 || c > 255) ? "c_outside_char_range" : c < 0 ? "c_negative" : c >= 128 ? "c_highbit" : "c_ascii";
     }
+    // n arguments far larger than any object, legal wherever the definition guarantees an earlier stop (terminated
+    // string / byte present): SIZE_MAX, SIZE_MAX/2+1 (= PTRDIFF_MAX+1: s+n wraps or goes "negative"), SIZE_MAX-7
+    static const size_t HUGE_N[3] = {(size_t)-1, (size_t)-1 / 2 + 1, (size_t)-1 - 7};
+    static_assert((size_t)PTRDIFF_MAX + 1 == (size_t)-1 / 2 + 1, "PTRDIFF_MAX+1 and SIZE_MAX/2+1 coincide on this host");
     inline long off(const void *r, const void *base) { return r ? (long)((const char *)r - (const char *)base) : -1000000; }
     inline int sgn(int x) { return (x > 0) - (x < 0); }
 
